@@ -852,6 +852,9 @@ func TestVerifC13(t *testing.T) {
 	if only == "" || only == "hp" {
 		c13RunHp(t, stats)
 	}
+	if only == "" || only == "ing" {
+		c13RunIng(t, stats)
+	}
 	if only == "" || only == "seq" {
 		c13RunTrk(t, stats)
 		c13RunKrn(t, stats)
